@@ -70,6 +70,28 @@ def regenerate_tables():
     return rc, broken, shas, out
 
 
+def generated_deps(module):
+    """names of the Generated/* modules in the import closure of `module` (the regenerated tables its theorems read)"""
+    seen, todo, gen = set(), [module], set()
+    while todo:
+        m = todo.pop()
+        if m in seen:
+            continue
+        seen.add(m)
+        if m.startswith("EdpVerif.Generated."):
+            gen.add(m.split(".")[-1])
+        path = os.path.join(LEAN, m.replace(".", "/") + ".lean")
+        if not os.path.exists(path):
+            continue
+        for l in open(path):
+            mm = re.match(r"^import\s+(EdpVerif\.[A-Za-z0-9_.]+)", l)
+            if mm:
+                todo.append(mm.group(1))
+            elif l.strip() and not l.startswith("import") and not l.startswith("--") and not l.startswith("/-"):
+                break
+    return gen
+
+
 def theorems_of(module):
     path = os.path.join(LEAN, module.replace(".", "/") + ".lean")
     names = []
@@ -307,7 +329,10 @@ def main():
 
     # 1. tables
     rc, broken_tables, table_shas, tout = regenerate_tables()
-    broken_tables = [b for b in broken_tables if b.split(":")[0] in cfg.get("tables", [])]
+    # a broken extraction counts for the properties whose theorems (or the models and lemmas they import) read that table
+    deps = generated_deps(cfg["module"])
+    broken_tables = [b for b in broken_tables if b.split(":")[0] in deps or b.split(":")[0] in cfg.get("tables", [])]
+    table_shas = {k: v for k, v in table_shas.items() if k in deps}
     # 2. prove
     pr = prove(pid, cfg, thorough)
     proof_ok = not pr["errors"] and pr["obligations"] > 0 and pr["discharged"] == pr["obligations"] and not broken_tables
